@@ -239,6 +239,7 @@ func c07Quiescent(c *Ctx) {
 	if reused.Load() > 0 {
 		c.Nontrivial(fmt.Sprintf("q|%d|%d", c.Case, reused.Load()))
 	}
+	c07QuiescentGroup(c)
 	// after the load: a sequential request still sees clean parameters
 	o := mon.Do(s.R, mon.Req{Method: "GET", Path: "/definitely/not/registered/7"})
 	if !o.NodeNil || len(o.Params) != 0 {
@@ -246,6 +247,72 @@ func c07Quiescent(c *Ctx) {
 			c.Violate("404 after concurrent load carries parameters", obsBrief(o))
 		}
 	}
+}
+
+// c07QuiescentGroup: a quiescent Group (Hosts matcher with wildcard domains, path-version matcher) served by
+// 16 goroutines with mixed-case Host headers; every request carries a sub-domain and an id unique to it and
+// must see exactly those. Afterwards the context pool must hand out distinct contexts.
+func c07QuiescentGroup(c *Ctx) {
+	env := mon.NewEnv()
+	env.RecordMW = false
+	g := env.NewGroup()
+	hs := mux.NewHosts(false, "{sub}.example.com", "{n:\\d+}.x.org", "static.example.org")
+	rh := g.New("hosts", hs)
+	hh := env.NewHnd(mon.KRoute, "/q/{id}")
+	rh.Handle("/q/{id}", hh, nil, "GET")
+	rp := g.New("path", mux.NewPathVersion("ver", "v1", "v2"))
+	hp := env.NewHnd(mon.KRoute, "/p/{id}")
+	rp.Handle("/p/{id}", hp, nil, "GET")
+	var wg sync.WaitGroup
+	kids := make([]*Ctx, 16)
+	for gi := range kids {
+		kids[gi] = c.Fork(c.R.U64())
+		wg.Add(1)
+		go func(kc *Ctx, gi int) {
+			defer wg.Done()
+			lr := kc.R
+			for i := 0; i < 60; i++ {
+				id := fmt.Sprintf("%d%03d", gi+1, i)
+				var q mon.Req
+				want := map[string]string{"id": id}
+				var wantH *mon.Hnd
+				switch lr.Intn(3) {
+				case 0:
+					sub := fmt.Sprintf("Tenant-%d-%d", gi, i)
+					q = mon.Req{Method: "GET", Path: "/q/" + id, Host: randCase(lr, sub+".example.com") + ref.Pick(lr, []string{"", ":8080"})}
+					want["sub"] = strings.ToLower(sub)
+					wantH = hh
+				case 1:
+					q = mon.Req{Method: "GET", Path: "/q/" + id, Host: id + ".X.org"}
+					want["n"] = id
+					wantH = hh
+				default:
+					v := ref.Pick(lr, []string{"v1", "v2"})
+					q = mon.Req{Method: "GET", Path: "/" + v + "/p/" + id, Host: "Other.Example.net"}
+					want["ver"] = "/" + v
+					wantH = hp
+				}
+				o := mon.Do(g, q)
+				kc.Eval()
+				if o.Panicked || o.H == nil || o.H.Base != wantH || fmtParams(o.Params) != fmtParams(want) {
+					kc.Violate("quiescent group under concurrent load: request did not see its own router/handler/parameters",
+						map[string]any{"request": q.String(), "expected_params": fmtParams(want), "observed": obsBrief(o)})
+					return
+				}
+			}
+		}(kids[gi], gi)
+	}
+	wg.Wait()
+	for _, kc := range kids {
+		c.Join(kc)
+	}
+	c.ClassN("quiescent_group_requests", 16*60)
+	a, b := types.NewContext(), types.NewContext()
+	if a == b {
+		c.Violate("after serving through a Group the context pool hands out the same context twice (returned to the pool twice)", nil)
+	}
+	a.Destroy()
+	b.Destroy()
 }
 
 // ---- monitor 3: history independence ----
